@@ -1,4 +1,5 @@
 import SphericalVerif.Props.C14
+import SphericalVerif.Props.GenCPow
 #print axioms C14.cpow_exact
 #print axioms C14.cpow_exact_at
 #print axioms C14.quadrant_loop_le3
@@ -7,3 +8,5 @@ import SphericalVerif.Props.C14
 #print axioms C14.cpow_entry0
 #print axioms C14.cpow_entry0_real
 #print axioms C14.cpow_entry1
+#print axioms GenCPow.gen_cpow_exact
+#print axioms GenCPow.gen_cpow_entry0
